@@ -310,7 +310,7 @@ Proof.
       * apply mbind_ok_inv in Hx. destruct Hx as [tb [s3 [Htb Hx]]].
         destruct (rev tb) as [|[|c0 g0] rest0] eqn:Hrtb; try discriminate.
         apply mret_ok_inv in Hx. destruct Hx as [Heq ->]. inversion Heq; subst.
-        right. split; [cbn [length]; lia|]. exists tb, g0, rest0. repeat split. exact Htb.
+        right. split; [cbn [length]; lia|]. exists tb, g0, rest0. split; [exact Htb|]. split; [exact Hrtb|reflexivity].
   - destruct (s_simul cfg) eqn:Hsim.
     + apply mbind_ok_inv in Hb. destruct Hb as [[el0 np1] [s2 [Hs Hb]]].
       apply mret_ok_inv in Hb. destruct Hb as [Heq ->]. inversion Heq; subst. clear Heq.
@@ -337,6 +337,473 @@ Proof.
   - destruct Hc as [_ [_ [lowest [rest [x [_ [_ [_ [Hc|Hc]]]]]]]]].
     + destruct Hc as [_ [_ Hs]]. exact Hs.
     + destruct Hc as [_ [tb [g' [rest' [_ [_ Hcontra]]]]]]. discriminate.
+Qed.
+
+(* ---------- the STV loop as a chain of rounds ---------- *)
+
+(* [steps cfg t p0 p sts s newer s']: starting with profile [p], states [sts] (newest first) and
+   monad state [s], the loop performs the rounds producing [newer] (oldest first) and stops in
+   state [s'] *)
+Inductive steps (cfg : stv_cfg) (t : Q) (p0 : profile)
+  : profile -> list estate -> mstate -> list estate -> mstate -> Prop :=
+| steps_done : forall p sts s,
+    Z.eqb (count_elected cand sts) (s_m cfg) = true -> steps cfg t p0 p sts s [] s
+| steps_next : forall p prev sts s np st s1 newer s',
+    Z.eqb (count_elected cand (prev :: sts)) (s_m cfg) = false ->
+    stv_step cand ceqb cfg t p0 (count_elected cand (prev :: sts)) p prev s = inl ((np, st), s1) ->
+    steps cfg t p0 np (st :: prev :: sts) s1 newer s' ->
+    steps cfg t p0 p (prev :: sts) s (st :: newer) s'.
+
+Lemma stv_loop_steps : forall fuel cfg t p0 p sts (s s' : mstate) out,
+  stv_loop cand ceqb fuel cfg t p0 p sts s = inl (out, s') ->
+  exists newer, out = rev sts ++ newer /\ steps cfg t p0 p sts s newer s'.
+Proof.
+  induction fuel as [|fuel IH]; intros cfg t p0 p sts s s' out H; cbn [STV.stv_loop] in H.
+  - destruct (Z.eqb (count_elected cand sts) (s_m cfg)) eqn:Hc; [|discriminate].
+    apply mret_ok_inv in H. destruct H as [-> ->]. exists []. rewrite app_nil_r.
+    split; [reflexivity|]. apply steps_done. exact Hc.
+  - destruct (Z.eqb (count_elected cand sts) (s_m cfg)) eqn:Hc.
+    + apply mret_ok_inv in H. destruct H as [-> ->]. exists []. rewrite app_nil_r.
+      split; [reflexivity|]. apply steps_done. exact Hc.
+    + destruct sts as [|prev sts]; [discriminate|].
+      apply mbind_ok_inv in H. destruct H as [[np st] [s1 [Hs H]]].
+      apply IH in H. destruct H as [newer [Hout Hsteps]].
+      exists (st :: newer). split.
+      * rewrite Hout. cbn [rev]. rewrite <- app_assoc. reflexivity.
+      * eapply steps_next; eassumption.
+Qed.
+
+Lemma Forall_cons_inv : forall X (P : X -> Prop) a l, Forall P (a :: l) -> P a /\ Forall P l.
+Proof. intros X P a l H. inversion H; subst. split; assumption. Qed.
+
+Lemma steps_quiet : forall cfg t p0 p sts (s s' : mstate) newer,
+  s_transfer cfg <> TRandom ->
+  steps cfg t p0 p sts s newer s' -> Forall no_tiebreak newer -> s' = s.
+Proof.
+  intros cfg t p0 p sts s s' newer Hk H. induction H as [p sts s Hc|p prev sts s np st s1 newer s' Hc Hs Hrest IH];
+    intros Hq; [reflexivity|].
+  apply Forall_cons_inv in Hq. destruct Hq as [Hq1 Hq].
+  rewrite (IH Hq). eapply stv_step_quiet; eassumption.
+Qed.
+
+(* two runs of the loop agree on the rounds before the first recorded tiebreak *)
+Lemma steps_agree : forall cfg t p0 p sts (s s' : mstate) newer,
+  s_transfer cfg <> TRandom ->
+  steps cfg t p0 p sts s newer s' ->
+  forall s2 s2' newer2, steps cfg t p0 p sts s2 newer2 s2' ->
+  forall k, Forall no_tiebreak (firstn k newer) -> firstn k newer2 = firstn k newer.
+Proof.
+  intros cfg t p0 p sts s s' newer Hk H.
+  induction H as [p sts s Hc|p prev sts s np st s1 newer s' Hc Hs Hrest IH];
+    intros s2 s2' newer2 H2 k Hq.
+  - inversion H2 as [p' sts' s0 Hc'|p' prev' sts' s0 np' st' s1' newer' s0' Hc' Hs' Hrest']; subst.
+    + reflexivity.
+    + congruence.
+  - inversion H2 as [p' sts' s0 Hc'|p' prev' sts' s0 np' st' s1' newer' s0' Hc' Hs' Hrest']; subst.
+    + congruence.
+    + destruct k as [|k]; [reflexivity|]. cbn [firstn] in Hq |- *.
+      apply Forall_cons_inv in Hq. destruct Hq as [Hq1 Hq].
+      pose proof (stv_step_quiet _ _ _ _ _ _ _ _ _ _ Hk Hs Hq1) as ->.
+      rewrite (local_no_draw_state cand _ _ (Local_stv_step cand ceqb _ _ _ _ _ _) _ _ Hs s2) in Hs'.
+      inversion Hs'; subst. f_equal. eapply IH; eassumption.
+Qed.
+
+Lemma count_elected_app : forall a b : list estate,
+  count_elected cand (a ++ b) = (count_elected cand a + count_elected cand b)%Z.
+Proof.
+  intros a b. unfold STV.count_elected, Core.flat. rewrite map_app, !concat_app, app_length. lia.
+Qed.
+
+Lemma count_elected_rev : forall l : list estate, count_elected cand (rev l) = count_elected cand l.
+Proof.
+  induction l as [|x l IH]; [reflexivity|]. cbn [rev]. rewrite count_elected_app, IH.
+  change (x :: l) with ([x] ++ l). rewrite count_elected_app. lia.
+Qed.
+
+(* the get_profile replay of a run that consumed nothing consumes nothing either: each replayed
+   round is the very call made by the run *)
+Lemma steps_replay : forall cfg t p0 p sts (s s' : mstate) newer,
+  s_transfer cfg <> TRandom ->
+  steps cfg t p0 p sts s newer s' -> Forall no_tiebreak newer ->
+  forall prev older, sts = prev :: older ->
+  forall s2, exists pf,
+    stv_replay cand ceqb cfg t p0 (rev older) p (removelast (prev :: newer)) s2 = inl (pf, s2).
+Proof.
+  intros cfg t p0 p sts s s' newer Hk H.
+  induction H as [p sts s Hc|p prev0 sts s np st s1 newer s' Hc Hs Hrest IH];
+    intros Hq prev older Heq s2.
+  - cbn [removelast Rules.stv_replay]. exists p. reflexivity.
+  - inversion Heq; subst prev0 sts. clear Heq.
+    apply Forall_cons_inv in Hq. destruct Hq as [Hq1 Hq].
+    pose proof (stv_step_quiet _ _ _ _ _ _ _ _ _ _ Hk Hs Hq1) as ->.
+    change (removelast (prev :: st :: newer)) with (prev :: removelast (st :: newer)).
+    cbn [Rules.stv_replay].
+    assert (Hcount : count_elected cand (rev older ++ [prev]) = count_elected cand (prev :: older)).
+    { change (rev older ++ [prev]) with (rev (prev :: older)). apply count_elected_rev. }
+    rewrite Hcount. unfold mbind.
+    rewrite (local_no_draw_state cand _ _ (Local_stv_step cand ceqb _ _ _ _ _ _) _ _ Hs s2).
+    change (rev older ++ [prev]) with (rev (prev :: older)).
+    apply (IH Hq st (prev :: older) eq_refl s2).
+Qed.
+
+Lemma initial_state_no_tiebreak : forall p s0, initial_state cand ceqb p = inl s0 -> tiebreaks s0 = [].
+Proof.
+  intros p s0 H. unfold STV.initial_state in H.
+  destruct (first_place_votes cand ceqb p) as [d|e]; [|discriminate].
+  cbn [rbind] in H. unfold ok in H. inversion H; subst. reflexivity.
+Qed.
+
+Lemma run_stv_inv : forall cfg p (s s' : mstate) out,
+  run_stv cand ceqb cfg p s = inl (out, s') ->
+  exists t s0 newer, stv_init cand cfg p = inl t /\ initial_state cand ceqb p = inl s0 /\
+    out = s0 :: newer /\ steps cfg t p p [s0] s newer s'.
+Proof.
+  intros cfg p s s' out H. unfold STV.run_stv in H.
+  apply mbind_lift_inv in H. destruct H as [t [Ht H]].
+  apply mbind_lift_inv in H. destruct H as [s0 [H0 H]].
+  apply stv_loop_steps in H. destruct H as [newer [Hout Hsteps]].
+  exists t, s0, newer. repeat split; assumption.
+Qed.
+
+Lemma run_stv_quiet : forall cfg p (s s' : mstate) out,
+  s_transfer cfg <> TRandom ->
+  run_stv cand ceqb cfg p s = inl (out, s') -> Forall no_tiebreak out -> s' = s.
+Proof.
+  intros cfg p s s' out Hk H Hq. apply run_stv_inv in H.
+  destruct H as [t [s0 [newer [_ [_ [-> Hsteps]]]]]].
+  apply Forall_cons_inv in Hq. destruct Hq as [_ Hq]. eapply steps_quiet; eassumption.
+Qed.
+
+(* ------------------------------------------------------------------ *)
+(** * TopTwo and Alaska: a Plurality stage, a second election, and a get_profile replay *)
+
+Lemma run_one_shot_quiet2 : forall k m tb p (s s' : mstate) q0 q1,
+  run_one_shot cand ceqb k m tb p s = inl ([q0; q1], s') -> tiebreaks q1 = [] -> s' = s.
+Proof.
+  intros k m tb p s s' q0 q1 H Hq. apply run_one_shot_inv in H.
+  destruct H as [s0 [np [s1 [_ [H1 Heq]]]]]. inversion Heq; subst.
+  eapply one_shot_step_quiet; eassumption.
+Qed.
+
+Lemma plurality_stage_inv : forall m tb p prev (s s' : mstate) np st,
+  plurality_stage cand ceqb m tb p prev s = inl ((np, st), s') ->
+  exists q0 q1 d,
+    run_plurality cand ceqb m tb p s = inl ([q0; q1], s') /\
+    remove_cand_prof cand ceqb (flat (remaining q1)) true false p = inl np /\
+    first_place_votes cand ceqb np = inl d /\
+    st = mkState (rnd prev + 1) (real_groups cand (elected q1)) (no_group cand) (remaining q1)
+                 (tiebreaks q1) d.
+Proof.
+  intros m tb p prev s s' np st H. unfold Rules.plurality_stage in H.
+  apply mbind_ok_inv in H. destruct H as [sts [s1 [Hp H]]].
+  destruct sts as [|q0 [|q1 [|q2 sts]]]; try discriminate. cbv zeta in H.
+  apply mbind_lift_inv in H. destruct H as [np' [Hnp H]].
+  apply mbind_lift_inv in H. destruct H as [d [Hd H]].
+  apply mret_ok_inv in H. destruct H as [Heq ->]. inversion Heq; subst.
+  exists q0, q1, d. repeat split; assumption.
+Qed.
+
+Lemma plurality_stage_quiet : forall m tb p prev (s s' : mstate) np st,
+  plurality_stage cand ceqb m tb p prev s = inl ((np, st), s') -> no_tiebreak st -> s' = s.
+Proof.
+  intros m tb p prev s s' np st H Hq. apply plurality_stage_inv in H.
+  destruct H as [q0 [q1 [d [Hp [_ [_ ->]]]]]]. unfold TieSpec.no_tiebreak in Hq. cbn [tiebreaks] in Hq.
+  apply run_plurality_inv in Hp. destruct Hp as [_ Hp]. eapply run_one_shot_quiet2; eassumption.
+Qed.
+
+Definition renumber (r : Z) (q : estate) : estate :=
+  mkState r (remaining q) (elected q) (eliminated q) (tiebreaks q) (escores q).
+
+Lemma run_toptwo_inv : forall tb p (s s' : mstate) sts,
+  run_toptwo cand ceqb tb p s = inl (sts, s') ->
+  exists s0 p1 s1 sa q0 q1 sb x,
+    ranking_validate cand p = inl tt /\ round0 cand ceqb SKFpv p = inl s0 /\
+    plurality_stage cand ceqb 2 tb p s0 s = inl ((p1, s1), sa) /\
+    run_plurality cand ceqb 1 tb p1 sa = inl ([q0; q1], sb) /\
+    one_shot_step cand ceqb SKFpv 1 tb p1 q0 sb = inl (x, s') /\
+    sts = [s0; s1; renumber 2 q1].
+Proof.
+  intros tb p s s' sts H. unfold Rules.run_toptwo in H.
+  apply mbind_lift_inv in H. destruct H as [[] [Hv H]].
+  apply mbind_lift_inv in H. destruct H as [s0 [H0 H]].
+  apply mbind_ok_inv in H. destruct H as [[p1 s1] [sa [H1 H]]].
+  apply mbind_ok_inv in H. destruct H as [sts2 [sb [H2 H]]].
+  destruct sts2 as [|q0 [|q1 [|q2 sts2]]]; try discriminate.
+  apply mbind_ok_inv in H. destruct H as [x [sc [H3 H]]].
+  apply mret_ok_inv in H. destruct H as [-> ->].
+  exists s0, p1, s1, sa, q0, q1, sb, x. repeat split; assumption.
+Qed.
+
+Lemma run_toptwo_quiet : forall tb p (s s' : mstate) sts,
+  run_toptwo cand ceqb tb p s = inl (sts, s') -> Forall no_tiebreak sts -> s' = s.
+Proof.
+  intros tb p s s' sts H Hq. apply run_toptwo_inv in H.
+  destruct H as [s0 [p1 [s1 [sa [q0 [q1 [sb [x [_ [_ [H1 [H2 [H3 ->]]]]]]]]]]]]].
+  apply Forall_cons_inv in Hq. destruct Hq as [_ Hq].
+  apply Forall_cons_inv in Hq. destruct Hq as [Hq1 Hq].
+  apply Forall_cons_inv in Hq. destruct Hq as [Hq2 _].
+  unfold TieSpec.no_tiebreak, renumber in Hq2. cbn [tiebreaks] in Hq2.
+  pose proof (plurality_stage_quiet _ _ _ _ _ _ _ _ H1 Hq1) as ->.
+  apply run_plurality_inv in H2. destruct H2 as [_ H2].
+  pose proof (run_one_shot_quiet2 _ _ _ _ _ _ _ _ H2 Hq2) as ->.
+  (* the replayed step is the very call made by the second Plurality election *)
+  apply run_one_shot_inv in H2. destruct H2 as [q0' [np [q1' [_ [Hstep Heq]]]]].
+  inversion Heq; subst q0' q1'. rewrite Hstep in H3. inversion H3; subst. reflexivity.
+Qed.
+
+Lemma run_alaska_inv : forall m1 m2 cfg p (s s' : mstate) out,
+  run_alaska cand ceqb m1 m2 cfg p s = inl (out, s') ->
+  exists s0 p1 s1 sa t sts sb pf,
+    alaska_args m1 m2 = inl tt /\ ranking_validate cand p = inl tt /\
+    round0 cand ceqb SKFpv p = inl s0 /\
+    plurality_stage cand ceqb m1 (s_tiebreak cfg) p s0 s = inl ((p1, s1), sa) /\
+    stv_init cand (with_m cfg m2) p1 = inl t /\
+    run_stv cand ceqb (with_m cfg m2) p1 sa = inl (sts, sb) /\
+    stv_replay cand ceqb (with_m cfg m2) t p1 [] p1 (removelast sts) sb = inl (pf, s') /\
+    out = s0 :: s1 :: map (bump cand) (tl sts).
+Proof.
+  intros m1 m2 cfg p s s' out H. unfold Rules.run_alaska in H.
+  apply mbind_lift_inv in H. destruct H as [[] [Ha H]].
+  apply mbind_lift_inv in H. destruct H as [[] [Hv H]].
+  apply mbind_lift_inv in H. destruct H as [s0 [H0 H]].
+  apply mbind_ok_inv in H. destruct H as [[p1 s1] [sa [H1 H]]]. cbv zeta in H.
+  apply mbind_lift_inv in H. destruct H as [t [Ht H]].
+  apply mbind_ok_inv in H. destruct H as [sts [sb [H2 H]]].
+  apply mbind_ok_inv in H. destruct H as [pf [sc [H3 H]]].
+  apply mret_ok_inv in H. destruct H as [-> ->].
+  exists s0, p1, s1, sa, t, sts, sb, pf. repeat split; assumption.
+Qed.
+
+Lemma Forall_map_bump : forall l : list estate,
+  Forall no_tiebreak (map (bump cand) l) -> Forall no_tiebreak l.
+Proof.
+  induction l as [|x l IH]; intros H; [constructor|]. cbn [map] in H.
+  apply Forall_cons_inv in H. destruct H as [Hx Hl]. constructor; [exact Hx|apply IH; exact Hl].
+Qed.
+
+Lemma run_alaska_quiet : forall m1 m2 cfg p (s s' : mstate) out,
+  s_transfer cfg <> TRandom ->
+  run_alaska cand ceqb m1 m2 cfg p s = inl (out, s') -> Forall no_tiebreak out -> s' = s.
+Proof.
+  intros m1 m2 cfg p s s' out Hk H Hq. apply run_alaska_inv in H.
+  destruct H as [s0 [p1 [s1 [sa [t [sts [sb [pf [_ [_ [_ [H1 [Ht [H2 [H3 ->]]]]]]]]]]]]]]].
+  apply Forall_cons_inv in Hq. destruct Hq as [_ Hq].
+  apply Forall_cons_inv in Hq. destruct Hq as [Hq1 Hq]. apply Forall_map_bump in Hq.
+  pose proof (plurality_stage_quiet _ _ _ _ _ _ _ _ H1 Hq1) as ->.
+  assert (Hk2 : s_transfer (with_m cfg m2) <> TRandom) by exact Hk.
+  apply run_stv_inv in H2. destruct H2 as [t' [q0 [newer [Ht' [_ [-> Hsteps]]]]]].
+  rewrite Ht in Ht'. inversion Ht'; subst t'. cbn [tl] in Hq.
+  pose proof (steps_quiet _ _ _ _ _ _ _ _ Hk2 Hsteps Hq) as ->.
+  destruct (steps_replay _ _ _ _ _ _ _ _ Hk2 Hsteps Hq q0 [] eq_refl s) as [pf' Hrep].
+  cbn [rev] in Hrep. rewrite Hrep in H3. inversion H3; subst. reflexivity.
+Qed.
+
+(* ------------------------------------------------------------------ *)
+(** * all deterministic rules *)
+
+Theorem run_rule_quiet : forall r p (s s' : mstate) sts,
+  deterministic r -> run_rule cand ceqb r p s = inl (sts, s') -> Forall no_tiebreak sts -> s' = s.
+Proof.
+  intros r p s s' sts Hdet H Hq. destruct r; cbn [Rules.run_rule TieSpec.deterministic] in *.
+  - eapply run_stv_quiet; eassumption.
+  - apply run_plurality_inv in H. destruct H as [_ H]. eapply run_one_shot_quiet; eassumption.
+  - cbv zeta in H. apply mbind_lift_inv in H. destruct H as [[] [_ H]].
+    apply mbind_lift_inv in H. destruct H as [[] [_ H]]. eapply run_one_shot_quiet; eassumption.
+  - apply run_rating_inv in H. destruct H as [_ [_ H]]. eapply run_one_shot_quiet; eassumption.
+  - destruct (Qlt_bool (inject_Z m) k); [discriminate|].
+    apply run_rating_inv in H. destruct H as [_ [_ H]]. eapply run_one_shot_quiet; eassumption.
+  - cbv zeta in H. apply run_rating_inv in H. destruct H as [_ [_ H]].
+    eapply run_one_shot_quiet; eassumption.
+  - eapply run_dominating_quiet; eassumption.
+  - eapply run_condo_quiet; eassumption.
+  - eapply run_toptwo_quiet; eassumption.
+  - eapply run_alaska_quiet; eassumption.
+  - contradiction.
+  - contradiction.
+Qed.
+
+(* C10, first sentence: no recorded tiebreak => no draw, and the identical outcome from every
+   random script *)
+Theorem c10_script_irrelevant_proof : forall (r : rule) (p : profile) (s s' : mstate) (sts : list estate),
+  deterministic r ->
+  run_rule cand ceqb r p s = inl (sts, s') ->
+  Forall no_tiebreak sts ->
+  s' = s /\ draws_used cand s s' = 0%nat /\
+  forall s2, run_rule cand ceqb r p s2 = inl (sts, s2).
+Proof.
+  intros r p s s' sts Hdet H Hq. pose proof (run_rule_quiet r p s s' sts Hdet H Hq) as ->.
+  split; [reflexivity|]. split; [unfold draws_used; lia|].
+  intros s2. exact (local_no_draw_state cand _ _ (Local_run_rule cand ceqb r p) s sts H s2).
+Qed.
+
+(* ------------------------------------------------------------------ *)
+(** * two runs agree on the rounds before the first recorded tiebreak *)
+
+Definition agree (x : M (list estate)) : Prop :=
+  forall (s s' s2 s2' : mstate) sts sts2 k,
+    x s = inl (sts, s') -> x s2 = inl (sts2, s2') ->
+    Forall no_tiebreak (firstn k sts) -> firstn k sts2 = firstn k sts.
+
+Lemma agree_lift_bind : forall A (r : res A) (f : A -> M (list estate)),
+  (forall a, agree (f a)) -> agree (mbind (mlift r) f).
+Proof.
+  intros A r f Hf s s' s2 s2' sts sts2 k H H2 Hq.
+  apply mbind_lift_inv in H. destruct H as [a [Hr H]].
+  apply mbind_lift_inv in H2. destruct H2 as [a2 [Hr2 H2]].
+  rewrite Hr in Hr2. inversion Hr2; subst a2. eapply Hf; eassumption.
+Qed.
+
+Lemma agree_run_one_shot : forall k m tb p, agree (run_one_shot cand ceqb k m tb p).
+Proof.
+  intros k m tb p s s' s2 s2' sts sts2 n H H2 Hq.
+  apply run_one_shot_inv in H. destruct H as [s0 [np [s1 [H0 [H1 ->]]]]].
+  apply run_one_shot_inv in H2. destruct H2 as [s0' [np' [s1' [H0' [H1' ->]]]]].
+  rewrite H0 in H0'. inversion H0'; subst s0'.
+  destruct n as [|[|n]]; [reflexivity|reflexivity|]. cbn [firstn] in Hq |- *.
+  apply Forall_cons_inv in Hq. destruct Hq as [_ Hq].
+  apply Forall_cons_inv in Hq. destruct Hq as [Hq1 _].
+  pose proof (one_shot_step_quiet _ _ _ _ _ _ _ _ _ H1 Hq1) as ->.
+  rewrite (local_no_draw_state cand _ _ (Local_one_shot_step cand ceqb _ _ _ _ _) _ _ H1 s2) in H1'.
+  inversion H1'; subst. reflexivity.
+Qed.
+
+Lemma agree_run_rating : forall m L k tb p, agree (run_rating cand ceqb m L k tb p).
+Proof.
+  intros m L k tb p. unfold Rules.run_rating. apply agree_lift_bind. intros u.
+  apply agree_lift_bind. intros u'. apply agree_run_one_shot.
+Qed.
+
+Lemma agree_run_plurality : forall m tb p, agree (run_plurality cand ceqb m tb p).
+Proof.
+  intros m tb p. unfold Rules.run_plurality. apply agree_lift_bind. intros u. apply agree_run_one_shot.
+Qed.
+
+(* a computation that never draws *)
+Lemma agree_always_quiet : forall x : M (list estate), Local x ->
+  (forall (s s' : mstate) sts, x s = inl (sts, s') -> s' = s) -> agree x.
+Proof.
+  intros x HL Hquiet s s' s2 s2' sts sts2 k H H2 _.
+  pose proof (Hquiet _ _ _ H) as ->.
+  rewrite (local_no_draw_state cand _ _ HL _ _ H s2) in H2. inversion H2; subst. reflexivity.
+Qed.
+
+Lemma agree_run_condo : forall m p, agree (run_condo cand ceqb m p).
+Proof.
+  intros m p s s' s2 s2' sts sts2 n H H2 Hq.
+  apply run_condo_inv in H. destruct H as [s0 [np [s1 [_ [H0 [H1 ->]]]]]].
+  apply run_condo_inv in H2. destruct H2 as [s0' [np' [s1' [_ [H0' [H1' ->]]]]]].
+  rewrite H0 in H0'. inversion H0'; subst s0'.
+  destruct n as [|[|n]]; [reflexivity|reflexivity|]. cbn [firstn] in Hq |- *.
+  apply Forall_cons_inv in Hq. destruct Hq as [_ Hq].
+  apply Forall_cons_inv in Hq. destruct Hq as [Hq1 _].
+  assert (Hs : s' = s).
+  { pose proof H1 as H1c. apply condo_step_inv in H1c.
+    destruct H1c as [tiers [el [rem [t [d [_ [He [_ [_ Hst]]]]]]]]]. subst s1.
+    unfold TieSpec.no_tiebreak in Hq1. cbn [tiebreaks] in Hq1. apply tb_list_nil in Hq1. subst t.
+    eapply elect_top_m_quiet. exact He. }
+  subst s'.
+  rewrite (local_no_draw_state cand _ _ (Local_condo_step cand ceqb _ _) _ _ H1 s2) in H1'.
+  inversion H1'; subst. reflexivity.
+Qed.
+
+Lemma agree_run_stv : forall cfg p, s_transfer cfg <> TRandom -> agree (run_stv cand ceqb cfg p).
+Proof.
+  intros cfg p Hk s s' s2 s2' sts sts2 n H H2 Hq.
+  apply run_stv_inv in H. destruct H as [t [s0 [newer [Ht [H0 [-> Hsteps]]]]]].
+  apply run_stv_inv in H2. destruct H2 as [t' [s0' [newer2 [Ht' [H0' [-> Hsteps2]]]]]].
+  rewrite Ht in Ht'. inversion Ht'; subst t'. rewrite H0 in H0'. inversion H0'; subst s0'.
+  destruct n as [|n]; [reflexivity|]. cbn [firstn] in Hq |- *.
+  apply Forall_cons_inv in Hq. destruct Hq as [_ Hq]. f_equal.
+  eapply steps_agree; eassumption.
+Qed.
+
+Lemma plurality_stage_agree : forall m tb p prev (s s' s2 s2' : mstate) np st np2 st2,
+  plurality_stage cand ceqb m tb p prev s = inl ((np, st), s') ->
+  plurality_stage cand ceqb m tb p prev s2 = inl ((np2, st2), s2') ->
+  no_tiebreak st -> np2 = np /\ st2 = st /\ s' = s /\ s2' = s2.
+Proof.
+  intros m tb p prev s s' s2 s2' np st np2 st2 H H2 Hq.
+  pose proof (plurality_stage_quiet _ _ _ _ _ _ _ _ H Hq) as ->.
+  rewrite (local_no_draw_state cand _ _ (Local_plurality_stage cand ceqb _ _ _ _) _ _ H s2) in H2.
+  inversion H2; subst. repeat split.
+Qed.
+
+Lemma agree_run_toptwo : forall tb p, agree (run_toptwo cand ceqb tb p).
+Proof.
+  intros tb p s s' s2 s2' sts sts2 n H H2 Hq.
+  apply run_toptwo_inv in H.
+  destruct H as [s0 [p1 [s1 [sa [q0 [q1 [sb [x [_ [H0 [H1 [Hp [_ ->]]]]]]]]]]]]].
+  apply run_toptwo_inv in H2.
+  destruct H2 as [s0' [p1' [s1' [sa' [q0' [q1' [sb' [x' [_ [H0' [H1' [Hp' [_ ->]]]]]]]]]]]]].
+  rewrite H0 in H0'. inversion H0'; subst s0'.
+  destruct n as [|[|n]]; [reflexivity|reflexivity|]. cbn [firstn] in Hq |- *.
+  apply Forall_cons_inv in Hq. destruct Hq as [_ Hq].
+  apply Forall_cons_inv in Hq. destruct Hq as [Hq1 Hq].
+  destruct (plurality_stage_agree _ _ _ _ _ _ _ _ _ _ _ _ H1 H1' Hq1) as [-> [-> [-> ->]]].
+  destruct n as [|n]; [reflexivity|]. cbn [firstn] in Hq |- *.
+  apply Forall_cons_inv in Hq. destruct Hq as [Hq2 _].
+  unfold TieSpec.no_tiebreak, renumber in Hq2. cbn [tiebreaks] in Hq2.
+  pose proof Hp as Hpc. apply run_plurality_inv in Hpc. destruct Hpc as [_ Hpc].
+  pose proof (run_one_shot_quiet2 _ _ _ _ _ _ _ _ Hpc Hq2) as ->.
+  rewrite (local_no_draw_state cand _ _ (Local_run_plurality cand ceqb _ _ _) _ _ Hp s2) in Hp'.
+  inversion Hp'; subst. reflexivity.
+Qed.
+
+Lemma firstn_map_bump : forall k (l : list estate),
+  firstn k (map (bump cand) l) = map (bump cand) (firstn k l).
+Proof. intros k l. apply firstn_map. Qed.
+
+Lemma agree_run_alaska : forall m1 m2 cfg p,
+  s_transfer cfg <> TRandom -> agree (run_alaska cand ceqb m1 m2 cfg p).
+Proof.
+  intros m1 m2 cfg p Hk s s' s2 s2' out out2 n H H2 Hq.
+  apply run_alaska_inv in H.
+  destruct H as [s0 [p1 [s1 [sa [t [sts [sb [pf [_ [_ [H0 [H1 [Ht [Hr [_ ->]]]]]]]]]]]]]]].
+  apply run_alaska_inv in H2.
+  destruct H2 as [s0' [p1' [s1' [sa' [t' [sts' [sb' [pf' [_ [_ [H0' [H1' [Ht' [Hr' [_ ->]]]]]]]]]]]]]]].
+  rewrite H0 in H0'. inversion H0'; subst s0'.
+  destruct n as [|[|n]]; [reflexivity|reflexivity|]. cbn [firstn] in Hq |- *.
+  apply Forall_cons_inv in Hq. destruct Hq as [_ Hq].
+  apply Forall_cons_inv in Hq. destruct Hq as [Hq1 Hq].
+  destruct (plurality_stage_agree _ _ _ _ _ _ _ _ _ _ _ _ H1 H1' Hq1) as [-> [-> [-> ->]]].
+  do 2 f_equal.
+  assert (Hk2 : s_transfer (with_m cfg m2) <> TRandom) by exact Hk.
+  apply run_stv_inv in Hr. destruct Hr as [t1 [q0 [newer [Ht1 [Hq0 [-> Hsteps]]]]]].
+  apply run_stv_inv in Hr'. destruct Hr' as [t2 [q0' [newer2 [Ht2 [Hq0' [-> Hsteps2]]]]]].
+  rewrite Hq0 in Hq0'. inversion Hq0'; subst q0'.
+  (* both loops use the threshold computed by the STV object for p1 *)
+  rewrite Ht1 in Ht2. inversion Ht2; subst t2. cbn [tl] in Hq |- *.
+  rewrite firstn_map_bump in Hq. apply Forall_map_bump in Hq.
+  rewrite !firstn_map_bump. f_equal.
+  eapply steps_agree; eassumption.
+Qed.
+
+Theorem c10_agree_until_tiebreak_proof :
+  forall (r : rule) (p : profile) (s s' s2 s2' : mstate) (sts sts2 : list estate) (k : nat),
+  deterministic r ->
+  run_rule cand ceqb r p s = inl (sts, s') ->
+  run_rule cand ceqb r p s2 = inl (sts2, s2') ->
+  Forall no_tiebreak (firstn k sts) -> firstn k sts2 = firstn k sts.
+Proof.
+  intros r p s s' s2 s2' sts sts2 k Hdet.
+  assert (Hag : agree (run_rule cand ceqb r p)).
+  { destruct r; cbn [Rules.run_rule TieSpec.deterministic] in *.
+    - apply agree_run_stv. exact Hdet.
+    - apply agree_run_plurality.
+    - cbv zeta. apply agree_lift_bind. intros u. apply agree_lift_bind. intros u'.
+      apply agree_run_one_shot.
+    - apply agree_run_rating.
+    - destruct (Qlt_bool (inject_Z m) k0).
+      + intros a b c d e f g Hfail. discriminate.
+      + apply agree_run_rating.
+    - cbv zeta. apply agree_run_rating.
+    - apply agree_always_quiet; [apply Local_run_dominating|]. intros a b c. apply run_dominating_quiet.
+    - apply agree_run_condo.
+    - apply agree_run_toptwo.
+    - apply agree_run_alaska. exact Hdet.
+    - contradiction.
+    - contradiction. }
+  intros H H2 Hq. eapply Hag; eassumption.
 Qed.
 
 End Quiet.
